@@ -374,7 +374,7 @@ func init() {
 		PropCheck: "prop_bad_ids",
 		Gen:       c18Gen,
 		Run:       c18Run,
-		Rule:      "single-threaded op sequences on a real inspector/participant (valid, wrong-message, non-deserializable, wrong-length and duplicate shares, in- and out-of-range indices, fills around t / t+1 / t+2, final HasShare/EnoughShares/ThresholdSignature probes) and concurrent histories (2-8 goroutines, <= 9 stamped operations + sequential probes); forced schedules: all goroutines add the same signer at once (exactly one may succeed), the pool one share short and 3-5 goroutines adding distinct genuine shares at once (exactly one retained, EnoughShares / ThresholdSignature asked meanwhile), only state-free calls at once with pairwise different arguments (VerifyShare of distinct signers and share kinds, VerifyThresholdSignature of each kind, SignShare), a full genuine pool and the first reconstruction called from every goroutine at once; non-trivial if at least one share was accepted or rejected; distinct by (n, t, op list / thread assignment)",
+		Rule:      "single-threaded op sequences on a real inspector/participant (valid, wrong-message, non-deserializable, wrong-length and duplicate shares, in- and out-of-range indices, fills around t / t+1 / t+2, final HasShare/EnoughShares/ThresholdSignature probes) and concurrent histories (2-8 goroutines, <= 9 stamped operations + sequential probes); forced schedules: all goroutines add the same signer at once (exactly one may succeed), the pool one share short and 3-5 goroutines adding distinct genuine shares at once (exactly one retained, EnoughShares / ThresholdSignature asked meanwhile), only state-free calls at once with pairwise different arguments (VerifyShare of distinct signers and share kinds, VerifyThresholdSignature of each kind, SignShare), a full genuine pool and the first reconstruction called from every goroutine at once; non-trivial if at least one share was accepted or rejected; distinct by (n, t, op list / thread assignment); every SignShare result is overwritten by the harness",
 		RaceKinds: []string{"concurrent"},
 		Shard:     25,
 	})
